@@ -41,9 +41,9 @@ type c05 struct {
 }
 
 func checkC05(c *Ctx) {
-	c.Rule("C05.R1", "writer and reader format trees equal the OGC layout: U8 order · U32 code(T) · Body(T), Body(Point)=X·Y (struct order), LineString=U32 n·n×Point, Polygon=U32 r·r×(U32 n·n×Point), Multi*/Collection=U32 n·n×WKB(member through Write/Read); every count is uint32(len(x)) of the collection the following repeat ranges over; readers read the count then exactly that many members")
-	c.Rule("C05.R2", "every multi-byte binary.Read/Write and every call of a helper receives the byte order of the element being processed (the function's order parameter, or in Read the order just decoded from that element's own flag byte); no multi-byte transfer uses a constant order")
-	c.Rule("C05.R3", "writer type→code table, reader registry code→reader, concrete type each reader returns and member type each multi-reader asserts all agree and equal OGC codes 1..7; byte-order flag table is big-endian↔0, little-endian↔1 in both directions, any other flag is an error")
+	c.Rule("C05.R1", "writer, evaluated with encoding/binary replaced by a typed stream: for model geometries of all seven types (empty members, nested collections) and both byte orders the stream Write produces is the OGC layout U8 order · U32 code · body, counts = number of members that follow, Multi*/Collection members complete WKB of their own, every multi-byte item in the requested order")
+	c.Rule("C05.R2", "reader: Read on each reference stream returns the geometry (type, shape, vertices) and consumes the stream exactly; members written in the other byte order decode correctly (each element is read in the order its own flag announces); point arrays longer than the allocation chunk come back complete")
+	c.Rule("C05.R3", "code and flag tables by behaviour: truncated messages, unknown type codes, flag bytes other than 0/1 and members of the wrong kind are rejected with an error")
 	c.Rule("C05.R4", "hex.Encode is EncodeToString of exactly wkb.Encode's bytes; hex.Decode passes DecodeString's bytes unchanged to wkb.Decode")
 	c.Rule("C05.R5", "the bytes/string Encode returns are freshly allocated in the call: they do not share storage with a package-level buffer or a sync.Pool object (an encoding the caller keeps stays the encoding of its geometry)")
 	pk := c.P.Pkg("encoding/wkb")
@@ -56,16 +56,13 @@ func checkC05(c *Ctx) {
 		c.Unk("C05.R1", "encoding/wkb.Read/Write", token.NoPos, "API anchors do not resolve")
 		return
 	}
-	a.tables()
-	a.layoutWriters()
-	a.layoutReaders()
-	a.byteOrder()
+	c05model(c, "C05.R1", "C05.R2", "C05.R3")
 	a.hexWrap()
 	checkFreshResult(c, "C05.R5", c.P.Func("encoding/wkb", "Encode"), c.P.Func("encoding/hex", "Encode"))
 	c.Floor("C05.R5", 2)
-	c.Floor("C05.R1", 14)
-	c.Floor("C05.R2", 15)
-	c.Floor("C05.R3", 16)
+	c.Floor("C05.R1", 7)
+	c.Floor("C05.R2", 7)
+	c.Floor("C05.R3", 1)
 	c.Floor("C05.R4", 2)
 }
 
